@@ -968,6 +968,20 @@ func (r *stateResolverV2) getPowerLevelFromAuthEvents(event PDU) int64 {
 		// get the create event
 		createEvent := r.resolvedCreate
 		if createEvent == nil {
+			// v2.1 starts from the empty state, so nothing is resolved yet:
+			// use the create event among the event's own auth events (or
+			// the event itself, if it is the create event).
+			if event.Type() == spec.MRoomCreate && event.StateKeyEquals("") {
+				createEvent = event
+			}
+			for _, authID := range event.AuthEventIDs() {
+				if authEvent, ok := r.authEventMap[authID]; ok && authEvent.Type() == spec.MRoomCreate && authEvent.StateKeyEquals("") {
+					createEvent = authEvent
+					break
+				}
+			}
+		}
+		if createEvent == nil {
 			panic("getPowerLevelFromAuthEvents: missing resolved create event, cannot calculate PL of sender!")
 		}
 		for _, creator := range CreatorsFromCreateEvent(createEvent) {
